@@ -204,6 +204,26 @@ def build(tier):
             obs.append(vf.Ob(nm, "C23", complete=False, bound=bb + "; every range of two positions with line < 8 and character < 8",
                              what="apply_change: Ok => exactly one replace_range(spec_index(start)..spec_index(end)) on char boundaries, version+1; Err <=> start after end, document untouched; no panic"))
     hs.append(r'''
+    // ---- structure of the step: after the content is mutated the line table is recomputed from the NEW content ----
+    static mut SEQ: u8 = 0;
+    fn replace_range_seq_stub<R: core::ops::RangeBounds<usize>>(_s: &mut String, _range: R, _with: &str) { unsafe { SEQ = 1; } }
+    /// contract stub of calculate_line_offsets: before the mutation it gives the table of the 1-line document, after it a sentinel
+    fn line_offsets_stub(_text: &str) -> Vec<usize> { if unsafe { SEQ } == 0 { vec![0] } else { unsafe { SEQ = 2; } vec![0, 777] } }
+    #[kani::proof] #[kani::unwind(8)]
+    #[kani::stub(std::string::String::replace_range, replace_range_seq_stub)]
+    #[kani::stub(TextDocument::calculate_line_offsets, line_offsets_stub)]
+    fn apply_recomputes_line_table() {
+        unsafe { SEQ = 0; }
+        let mut d = doc_of("a");
+        let change = TextDocumentContentChangeEvent { range: Some(Range { start: Position { line: 0, character: 0 }, end: Position { line: 0, character: 1 } }),
+                                                      range_length: None, text: String::new() };
+        let res = d.apply_change(&change);
+        assert!(res.is_ok(), "OB: a valid range must not be rejected");
+        // STRUCT: this pins HOW the invariant is re-established (recompute after the mutation); a different but correct way makes
+        // the obligation inapplicable, so a failure here is reported as UNDECIDED, never as a violation
+        assert!(unsafe { SEQ } == 2 && d.line_offsets.len() == 2 && d.line_offsets[1] == 777, "STRUCT: the line table is not recomputed from the new content after the edit");
+        std::mem::forget(d); std::mem::forget(change);
+    }
     #[kani::proof] #[kani::unwind(8)]
     #[kani::stub(<std::string::String as std::clone::Clone>::clone_from, clone_from_stub)]
     fn apply_full_replace() {
@@ -214,6 +234,8 @@ def build(tier):
         assert!(res.is_ok() && unsafe { REC.0 } == 100 && d.version == 2, "OB: a change without range replaces the whole content exactly once");
         std::mem::forget(d); std::mem::forget(change);
     }''')
+    obs.append(vf.Ob("apply_recomputes_line_table", "C23", complete=False, bound="structural obligation on one concrete edit (contract stubs record the call order)",
+                     what="apply_change recomputes the line table with calculate_line_offsets AFTER mutating the content (how the well-formedness invariant is re-established); a failure is UNDECIDED, not a violation"))
     obs.append(vf.Ob("apply_full_replace", "C23", complete=False, bound="one concrete document and replacement text", what="a change without range calls content.clone_from(text) once and bumps the version"))
     src = ENV
     for k in fr:
